@@ -39,6 +39,21 @@ def judgeRT (codec : String) (selfDelim canon : Bool) (impl : String) : String :
     | _, _, _ => "viol:unparseable-output"
   | _, _, _, _, _ => "viol:unparseable-output"
 
+/-- verdict for a `bd` op (a value whose bounded field has exactly `n` elements, declared maximum `max`):
+    within the bound the value must round-trip like any other; beyond it the encoder or the decoder
+    may refuse, but nothing else may go wrong -/
+def judgeBD (codec bound : String) (selfDelim canon : Bool) (n max : Nat) (impl : String) : String :=
+  let toks := fields impl
+  if n ≤ max then
+    (if toks == ["enc=err"] then s!"viol:encoder-rejects-value-within-bound:{bound}={n}:{codec}"
+     else match judgeRT codec selfDelim canon impl with
+       | "ok" => "ok"
+       | v => if v.startsWith "viol:roundtrip-" then s!"viol:roundtrip-at-bound:{bound}={n}:{codec}" else v)
+  else if toks == ["enc=err"] then "ok"
+  else if kv "rt" toks == some "err" then
+    (if kv "alloc" toks == some "ok" then "ok" else s!"viol:alloc-unbounded:{codec}")
+  else judgeRT codec selfDelim canon impl
+
 /-- verdict for a `gb` (arbitrary bytes) op -/
 def judgeGB (codec : String) (canon : Bool) (impl : String) : String :=
   let toks := fields impl
